@@ -63,8 +63,8 @@ def tla_seed(d):
                         % (tla_str(t["id"]), t["plen"], t["hdr"], ", ".join("<<%d, %d>>" % tuple(fl) for fl in t["fields"]))
                         for t in d["streams"])
     ents = ", ".join("[id |-> %s, form |-> %s]" % (tla_str(e["id"]), tla_str(e["form"])) for e in d["ents"])
-    return "[sites |-> {\n    %s},\n   streams |-> {%s},\n   ents |-> {%s},\n   flen |-> %d, enc |-> %s, fstride |-> %d]" % (
-        sites, streams, ents, d["flen"], "TRUE" if d["enc"] else "FALSE", d["fstride"])
+    return "[sites |-> {\n    %s},\n   streams |-> {%s},\n   ents |-> {%s},\n   flen |-> %d, enc |-> %s, fstride |-> %d, nocache |-> %s]" % (
+        sites, streams, ents, d["flen"], "TRUE" if d["enc"] else "FALSE", d["fstride"], "TRUE" if d["nocache"] else "FALSE")
 
 
 def enumerate_faults(ck, descs, variants=(0, 1), pstride=1, fstride=1, coverage=False, label="Faults"):
@@ -227,8 +227,54 @@ def _work(chunk):
             else:
                 obs = True
                 rows.append((e, oc, lines, detail))
+        if _SEEDS[name].double is not None:
+            rows.extend(_scaling(name, f, fd, rs))
         out.append((name, fd, len(data), rows, obs))
     return out
+
+
+SCALE_FACTOR = 2.5        # work(2n members) must stay below SCALE_FACTOR * work(n members) ...
+SCALE_FLOOR = 150_000     # ... once it is above this many lines (small runs are dominated by constants)
+_DOUBLE = {}
+
+
+def _scaling(name, f, fd, rs):
+    """the scaling check of a seed that comes in two sizes: the same fault applied to the document with twice as many
+    members must not cost more than SCALE_FACTOR times the work - whatever the absolute budget says.  Positions of
+    payload faults and file truncations are scaled with the payload / file length."""
+    if name not in _DOUBLE:
+        big = _SEEDS[name].double()
+        d1, l1 = assemble(_SEEDS[name])
+        d2, l2 = assemble(big)
+        _DOUBLE[name] = (big, len(d1), len(d2), {k: len(v) for k, v in l1.payloads.items()},
+                         {k: len(v) for k, v in l2.payloads.items()})
+    big, n1, n2, p1, p2 = _DOUBLE[name]
+    fd2 = dict(fd)
+    if fd["cls"] == "file":
+        fd2["pos"] = min(n2 - 1, fd["pos"] * n2 // n1)
+    elif fd["cls"] == "payload" and fd["kind"] in ("truncate", "corrupt"):
+        a, b = p1.get(fd["site"], 0), p2.get(fd["site"], 0)
+        if a and b:
+            # cuts near the end stay near the end (the last bytes are what matters), others scale
+            fd2["pos"] = (b - (a - fd["pos"])) if a - fd["pos"] <= 16 else min(b - 1, fd["pos"] * b // a)
+    f2 = Fault(fd2)
+    data2, _ = assemble(big, f2)
+    rs2 = faultrun.run_all(data2, caching=not f2.nocache)
+    rows = []
+    for (e, oc, lines, _), (e2, oc2, lines2, detail2) in zip(rs, rs2):
+        c1, c2 = oc.split(":")[0], oc2.split(":")[0]
+        grew = lines2 > SCALE_FACTOR * lines and lines2 > SCALE_FLOOR
+        if c1 in ("ok", "family") and (c2 == "hang" or (c2 in ("ok", "family") and grew)):
+            # name the place: run again with the budget the linear bound allows
+            again = faultrun.run_all(data2, caching=not f2.nocache,
+                                     budgets=[max(SCALE_FLOOR, int(SCALE_FACTOR * lines))] * 3)
+            site = [r for r in again if r[0] == e2][0][1]
+            site = site.split(":", 1)[1] if site.startswith("hang:") else "?:?"
+            rows.append((e2 + "@2n", "superlinear:" + site, lines2,
+                         "twice the members cost %d lines, %d with the original number (x%.1f)" % (lines2, lines, lines2 / max(lines, 1))))
+        elif c2 not in ("ok", "family"):
+            rows.append((e2 + "@2n", oc2, lines2, detail2))
+    return rows
 
 
 def campaign(ck, faults, label):
@@ -262,7 +308,7 @@ def campaign(ck, faults, label):
                     if len(d[1]) < 3:
                         d[1].append({"seed": name, "fault": fd, "entry": e, "observed": detail, "lines": lines,
                                      "input_bytes": dlen})
-                worst_oc = max((oc.split(":")[0] for (_, oc, _, _) in rows), key=["ok", "family", "leak", "recursion", "hang"].index)
+                worst_oc = max((oc.split(":")[0] for (_, oc, _, _) in rows), key=["ok", "family", "leak", "recursion", "hang", "superlinear"].index)
                 if (fd["cls"], worst_oc) not in sampled and len(sampled) < 8:
                     sampled.add((fd["cls"], worst_oc))
                     ck.sample({"seed": name, "fault": fd, "input_bytes": dlen,
@@ -337,6 +383,12 @@ def replay(path):
     for (e, oc, lines, detail) in faultrun.run_all(data, caching=not f.nocache):
         print("  %-24s %-50s %8d lines  %s" % (e, oc, lines, "" if oc == "ok" else str(detail)[:200]))
         bad = bad or oc.split(":")[0] not in ("ok", "family")
+    if seeds[case["seed"]].double is not None:
+        global _SEEDS
+        _SEEDS = seeds
+        for (e, oc, lines, detail) in _scaling(case["seed"], f, case["fault"], faultrun.run_all(data, caching=not f.nocache)):
+            print("  %-24s %-50s %8d lines  %s" % (e, oc, lines, str(detail)[:200]))
+            bad = True
     if bad:
         print("VIOLATION property=C13 replay=%s" % path)
     return 1 if bad else 0
